@@ -58,6 +58,49 @@ def main():
             except BaseException as e:  # includes pyo3 PanicException
                 fail("open_failed", [f["kind"]], {"idx": idx, "file": f["path"], "start": s}, repr(e))
                 continue
+            # ---- the same routines on readers opened from Python file-like objects (an open file,
+            # a BytesIO), with a records() / zoom_records() iterator of the same reader alive and
+            # advanced between the calls: every answer must equal the path-opened reader's, which
+            # the oracle below judges
+            import io
+            for src in ("file", "bytesio"):
+                try:
+                    fobj = open(f["path"], "rb") if src == "file" else io.BytesIO(open(f["path"], "rb").read())
+                    bf = pybigtools.open(fobj)
+                    it = bf.records("c")
+                    zit = None
+                except BaseException as ex:
+                    fail("open_failed", [f["kind"], "file_like"], {"idx": idx, "file": f["path"], "start": s, "source": src}, repr(ex))
+                    continue
+                for e in range(s + 1, L + 4):
+                    n = e - s
+                    case = {"idx": idx, "file": f["path"].split("/")[-1], "kind": f["kind"], "items": f["items"],
+                            "start": s, "end": e, "source": src}
+                    try:
+                        # advance the live iterators (restart them when exhausted)
+                        if next(it, None) is None:
+                            it = bf.records("c")
+                        if e % 3 == 0:
+                            try:
+                                if zit is None or next(zit, None) is None:
+                                    zl = list(bf.zooms())
+                                    zit = bf.zoom_records(zl[0], "c") if zl else None
+                                    if zit is not None:
+                                        stats["file_like_zoom_iterators"] = stats.get("file_like_zoom_iterators", 0) + 1
+                            except BaseException as ex:
+                                fail("values_raised", [f["kind"], "file_like", "zoom_records"], case, repr(ex))
+                                zit = None
+                        calls = [dict(missing=-1.0, oob=-7.0), dict(bins=min(2, n), summary="max", exact=True, missing=-1.0, oob=-7.0),
+                                 dict(bins=1, summary="mean", exact=True, missing=0.0, oob=math.nan)]
+                        for kw in calls:
+                            stats["file_like_calls"] = stats.get("file_like_calls", 0) + 1
+                            g1 = [float(x) for x in bf.values("c", s, e, **kw)]
+                            g0 = [float(x) for x in b.values("c", s, e, **kw)]
+                            if len(g0) != len(g1) or any(not same(x, y) for x, y in zip(g0, g1)):
+                                fail("file_like_reader_differs_from_path_reader", [f["kind"], src], dict(case, kwargs=repr(kw)),
+                                     f"reader opened from a {src} object with a live records() iterator gives {g1}, the path-opened reader {g0}")
+                    except BaseException as ex:
+                        fail("values_raised", [f["kind"], "file_like", src], case, repr(ex))
             for e in range(s + 1, L + 4):
                 n = e - s
                 for (missing, oob) in fills:
